@@ -1,4 +1,5 @@
 """C10 - recursion depth is bounded by the configured limit and fails gracefully."""
+import os
 import random
 import re
 import time
@@ -54,6 +55,61 @@ SHAPES = {
                          lambda d: str(d), True),
     "default_arg_recursion": (lambda d: "local f(n, m=if n == 0 then 0 else 1 + f(n - 1)) = m; f(%d)" % d, lambda d: str(d), True),
 }
+
+# thunk chains through inheritance layers and lazily built containers: level i reads level i-1 only when forced, so
+# forcing the top nests d evaluations; every way a layer / element can read its predecessor
+def _add_layer_chains():
+    layer_forms = {
+        "plus_colon": ("{v+: 1}", "{v: 0}", lambda d: str(d)),
+        "plus_colon_hidden": ("{v+:: 1}", "{v: 0}", lambda d: str(d)),
+        "plus_colon_visible": ("{v+::: 1}", "{v:: 0}", lambda d: str(d)),
+        "plus_colon_computed": ("{[k]+: 1 for k in ['v']}", "{v: 0}", lambda d: str(d)),
+        "plus_colon_array": ("{v+: [i]}", "{v: []}", None),
+        "plus_colon_string": ("{v+: 'x'}", "{v: ''}", None),
+        "plus_colon_object": ("{v+: {['k' + i]: i}}", "{v: {}}", None),
+        "super_dot": ("{v: super.v + 1}", "{v: 0}", lambda d: str(d)),
+        "super_index": ("{v: super['v'] + 1}", "{v: 0}", lambda d: str(d)),
+        "in_super_guard": ("{v: if 'v' in super then super.v + 1 else 0}", "{v: 0}", lambda d: str(d)),
+        "self_other_field": ("{['w' + i]: self['w' + (i - 1)] + 1}", "{w0: 0}", None),
+        "object_local": ("{local up = super.v, v: up + 1}", "{v: 0}", lambda d: str(d)),
+        "assert_reads_super": ("{assert super.v >= 0, v: super.v + 1}", "{v: 0}", lambda d: str(d)),
+    }
+    for name, (layer, base, valf) in layer_forms.items():
+        for how in ("foldl", "foldr", "objext"):
+            if how == "foldl":
+                srcf = (lambda layer, base: lambda d: "std.foldl(function(o, i) o + %s, std.range(1, %d), %s)" % (layer, d, base))(layer, base)
+            elif how == "foldr":
+                srcf = (lambda layer, base: lambda d: "std.foldr(function(i, o) o + %s, std.range(1, %d), %s)" % (layer, d, base))(layer, base)
+            else:
+                srcf = (lambda layer, base: lambda d: "std.foldl(function(o, i) o %s, std.range(1, %d), %s)" % (layer, d, base))(layer, base)
+            if name == "self_other_field":
+                full = (lambda srcf: lambda d: "local o = %s; o['w%d']" % (srcf(d), d))(srcf)
+                val = lambda d: str(d)
+            else:
+                full = (lambda srcf: lambda d: "(%s).v" % srcf(d))(srcf)
+                val = valf
+            if name in ("plus_colon_array", "plus_colon_string", "plus_colon_object"):
+                full = (lambda srcf: lambda d: "std.length((%s).v)" % srcf(d))(srcf)
+                val = lambda d: str(d)
+            SHAPES["layers:%s:%s" % (name, how)] = (full, val, True)
+    lazy = {
+        "arrcomp_chain": "local a = [if i == 0 then 0 else a[i - 1] + 1 for i in std.range(0, %d)]; a[%d]",
+        "objcomp_chain": "local o = {['k' + i]: if i == 0 then 0 else o['k' + (i - 1)] + 1 for i in std.range(0, %d)}; o['k%d']",
+        "mapWithIndex_chain": "local a = std.mapWithIndex(function(i, x) if i == 0 then 0 else a[i - 1] + 1, std.range(0, %d)); a[%d]",
+        "map_chain": "local a = std.map(function(i) if i == 0 then 0 else a[i - 1] + 1, std.range(0, %d)); a[%d]",
+        "mapWithKey_chain": "local o = std.mapWithKey(function(k, i) if i == 0 then 0 else o['k' + (i - 1)] + 1, {['k' + i]: i for i in std.range(0, %d)}); o['k%d']",
+        "closure_compose": "std.foldl(function(f, i) function(x) f(x) + 1, std.range(1, %d), function(x) x)(0) + 0 * %d",
+        "closure_compose_outer": "std.foldl(function(f, i) function(x) f(x + 1), std.range(1, %d), function(x) x)(0) + 0 * %d",
+        "thunk_in_array_fold": "std.foldl(function(a, i) [a[0] + 1], std.range(1, %d), [0])[0] + 0 * %d",
+        "thunk_in_object_fold": "std.foldl(function(o, i) {v: o.v + 1}, std.range(1, %d), {v: 0}).v + 0 * %d",
+        "default_param_chain": "std.foldl(function(f, i) function(x=f()) x + 1, std.range(1, %d), function(x=0) x)() + 0 * %d",
+    }
+    for name, tmpl in lazy.items():
+        SHAPES["lazy:" + name] = ((lambda tmpl: lambda d: tmpl % (d, d))(tmpl), lambda d: str(d), True)
+
+
+_add_layer_chains()
+
 
 # the recursive call in every syntactic position, with and without the tailstrict modifier.  Only a tailstrict call in a
 # genuine tail position (body, if branch, local body, assert rest) may be eliminated; everywhere else each level keeps
@@ -304,6 +360,87 @@ def cycles_shard(args):
     return agg
 
 
+# ------------------------------------------------------------------------------------------------
+# self-dependence through imports (real files, real CLI): a value that depends on itself through k files is reported as
+# infinite recursion at every limit larger than the cycle, whatever the spelling of the paths
+
+def import_cycle_layouts():
+    """-> list of (name, {relative path: content or ('symlink', target)}, entry, extra argv, k)."""
+    out = []
+    forms = {"plus": "(import %s) + 1", "field": "{a: (import %s).a}.a", "elem": "[import %s][0]", "local": "local x = import %s; x",
+             "obj_hidden": "{h:: import %s, v: self.h}.v"}
+    for fname, form in forms.items():
+        def imp(p):
+            return form % ('"%s"' % p)
+        out.append(("same_dir_2:" + fname, {"a.jsonnet": imp("b.jsonnet"), "b.jsonnet": imp("a.jsonnet")}, "a.jsonnet", [], 2))
+        out.append(("self_1:" + fname, {"a.jsonnet": imp("a.jsonnet")}, "a.jsonnet", [], 1))
+        out.append(("self_dot:" + fname, {"a.jsonnet": imp("./a.jsonnet")}, "a.jsonnet", [], 1))
+        out.append(("self_updown:" + fname, {"a.jsonnet": imp("sub/../a.jsonnet"), "sub/keep": ""}, "a.jsonnet", [], 1))
+        out.append(("subdir_dotdot:" + fname, {"a.jsonnet": imp("lib/b.jsonnet"), "lib/b.jsonnet": imp("../a.jsonnet")}, "a.jsonnet", [], 2))
+        out.append(("two_subdirs_3:" + fname, {"a.jsonnet": imp("x/b.jsonnet"), "x/b.jsonnet": imp("../y/c.jsonnet"),
+                                               "y/c.jsonnet": imp("../a.jsonnet")}, "a.jsonnet", [], 3))
+        out.append(("deep_dotdot_4:" + fname, {"a.jsonnet": imp("p/q/b.jsonnet"), "p/q/b.jsonnet": imp("../c.jsonnet"),
+                                               "p/c.jsonnet": imp("q/../../d.jsonnet"), "d.jsonnet": imp("./a.jsonnet")}, "a.jsonnet", [], 4))
+        out.append(("via_jpath:" + fname, {"a.jsonnet": imp("b.jsonnet"), "J/b.jsonnet": imp("../a.jsonnet")}, "a.jsonnet", ["-J", "J"], 2))
+        out.append(("via_symlink:" + fname, {"a.jsonnet": imp("link.jsonnet"), "link.jsonnet": ("symlink", "a.jsonnet")}, "a.jsonnet", [], 1))
+        out.append(("via_dir_symlink:" + fname, {"a.jsonnet": imp("d/b.jsonnet"), "real/b.jsonnet": imp("../a.jsonnet"),
+                                                 "d": ("symlink", "real")}, "a.jsonnet", [], 2))
+        out.append(("entry_in_subdir:" + fname, {"s/a.jsonnet": imp("../b.jsonnet"), "b.jsonnet": imp("s/a.jsonnet")}, "s/a.jsonnet", [], 2))
+    return out
+
+
+def import_cycles_shard(args):
+    cases, = args
+    import shutil
+    import subprocess
+    import tempfile
+    agg = Agg()
+    os.makedirs(common.SCRATCH, exist_ok=True)
+    for name, files, entry, argv, k in cases:
+        d = tempfile.mkdtemp(dir=common.SCRATCH, prefix="c10imp")
+        try:
+            for rel, content in files.items():
+                pth = os.path.join(d, rel)
+                os.makedirs(os.path.dirname(pth), exist_ok=True)
+                if isinstance(content, tuple):
+                    os.symlink(content[1], pth)
+                else:
+                    with open(pth, "w") as f:
+                        f.write(content)
+            seen = []
+            for s_lim in (20, 100, 500, 3000):
+                agg.evaluations += 1
+                try:
+                    p = subprocess.run([common.CLI, "-s", str(s_lim)] + argv + [entry], cwd=d, capture_output=True, timeout=60,
+                                       env=dict(os.environ, NO_COLOR="1"), preexec_fn=common._limits(4 << 30))
+                except subprocess.TimeoutExpired:
+                    agg.inconc("timeout")
+                    continue
+                err = p.stderr.decode("utf-8", "replace")
+                if "infinite recursion" in err:
+                    c = "InfiniteRecursion"
+                elif "stack overflow" in err:
+                    c = "StackOverflow"
+                elif p.returncode == 0:
+                    c = "value"
+                else:
+                    c = "other:" + err.strip().split("\n")[0][:60]
+                seen.append((s_lim, c, p.returncode))
+                agg.nontrivial.add(common.h64("impcycle", name, str(s_lim)))
+                if c != "InfiniteRecursion" or p.returncode != 1:
+                    agg.violation({"kind": "import_cycle_not_reported_as_infinite_recursion", "layout": name.split(":")[0], "outcome": c.split(":")[0]},
+                                  {"layout": name, "files": {r: (c2 if isinstance(c2, str) else list(c2)) for r, c2 in files.items()},
+                                   "limit": s_lim, "cycle_length": k, "exit": p.returncode, "stderr": err[-400:]},
+                                  {"argv": ["-s", str(s_lim)] + argv + [entry], "files": {r: (c2 if isinstance(c2, str) else list(c2)) for r, c2 in files.items()}})
+                    break
+                agg.add("import_cycle_layouts", name.split(":")[0])
+            if len(agg.samples) < 1:
+                agg.sample({"leg": "import_cycle", "layout": name, "files": {r: str(c2) for r, c2 in files.items()}, "outcomes": seen})
+        finally:
+            shutil.rmtree(d, ignore_errors=True)
+    return agg
+
+
 def native_cycle_cases(rng, funcs, quick):
     """Every std function with a self-referential array / object / string-array in every argument position."""
     cases = [(name, src, True) for name, src in NATIVE_CYCLES.items()]
@@ -407,13 +544,18 @@ def run(tier, seed):
         depths = list(range(0, 41)) + [50, 75, 99, 100, 101, 150, 200, 249, 250, 251, 400, 498, 499, 500, 501, 502, 750, 999,
                                        1000, 1001, 1500, 2000, 3000, 5000, 10000, 20000, 50000, 100000]
         depths += rng.sample(range(41, 3000), 30)
-    jobs = [(sh, d) for sh in SHAPES for d in depths]
+    # the inheritance-layer and lazy-container chains cost O(d) per field lookup: fewer and smaller depths
+    chain_depths = [2, 20, 41, 250, 501] if quick else [0, 1, 2, 3, 5, 8, 13, 20, 21, 40, 41, 100, 250, 499, 500, 501, 1000, 2000]
+    jobs = [(sh, d) for sh in SHAPES for d in (chain_depths if sh.startswith(("layers:", "lazy:")) else depths)]
     rng.shuffle(jobs)
     for a in common.pmap(shapes_shard, [(seed + i, jobs[i::32]) for i in range(32)]):
         total.merge(a)
     cj = [(name, k) for name in CYCLES for k in ([1, 2, 3, 10, 100, 600] if name.endswith("_cycle") and name not in
                                                    ("object_self_cycle", "manifest_cycle", "equals_cycle", "toString_cycle") else [1])]
     for a in common.pmap(cycles_shard, [(seed + i, cj[i::8]) for i in range(8)]):
+        total.merge(a)
+    ic = import_cycle_layouts()
+    for a in common.pmap(import_cycles_shard, [(ic[i::16],) for i in range(16)]):
         total.merge(a)
     srv0 = Server()
     try:
@@ -434,13 +576,18 @@ def run(tier, seed):
             "tailstrict - only a tailstrict call in a genuine tail position may go uncharged; function, mutual, object method, self/super chains, array/object towers "
             "through manifestation, ==, <, toString, manifestJsonEx/Python/YamlDoc/TomlEx, prune, mergePatch, "
             "flattenDeepArray, deepJoin, thunk chains, lazy array chains, format, sort keys, comprehensions, asserts, "
-            f"default args) x depths x a ladder of {len(S_LADDER)} frame limits (0..10^6): outcome in "
+            "default args; thunk chains through inheritance layers - 13 ways a layer can read its predecessor (+: in every visibility / "
+            "computed / array / string / object form, super.f, super[e], in super, self, object local, assert) x foldl / foldr / "
+            "object-extension construction - and through lazily built containers (comprehensions, map, mapWithIndex, mapWithKey, "
+            f"composed closures, defaulted parameters)) x depths x a ladder of {len(S_LADDER)} frame limits (0..10^6): outcome in "
             "{value, StackOverflow}, never a crash; the value is the expected one; monotone in the limit; a recursion "
             f"d deep never succeeds under a limit s with d >= 3s+20; {len(CYCLES)} self-referential programs x cycle "
             "lengths x limits must end in InfiniteRecursion or StackOverflow; " + str(len(NATIVE_CYCLES)) + " hand-picked builtin applications "
             "and a sweep of every std function with a self-referential array/object in every argument position must be "
             "stopped the same way or answer (a dedicated child that exhausts 10 s or 1 GiB on such a tiny program is the "
-            "observation 'never stopped'); flat workloads of n elements through "
+            "observation 'never stopped'); import cycles of 1-4 real files through the CLI in 11 directory layouts (same directory, "
+            "./ and sub/../ spellings, sub-directories with .., -J, file and directory symlinks, entry in a sub-directory) x 5 "
+            "import positions x limits 20..3000: always 'infinite recursion', exit 1; flat workloads of n elements through "
             "array builtins: never a crash, monotone. distinct_nontrivial = distinct (shape, depth, limit) points run.")
     return common.finish(PROP, tier, seed, total, rule, t0,
                          assumptions=["'however deeply or endlessly' is restated as bounded sweeps (depth <= 10^5, limit <= 10^6)",
